@@ -39,7 +39,7 @@ def must_be_zero(ll2, good2, x, binsz):
 
 class C11(Check):
     ID = 'C11'
-    RULE = ('1-D spectra of 150-600 pixels and stacked 2-D exposures (2-4 rows, >= 101 good pixels each, sub-pixel offsets) x '
+    RULE = ('1-D spectra of 150-600 pixels and stacked 2-D exposures (2-4 rows, >= 101 good pixels each, sub-pixel dithers and different wavelength coverage, isolated single bad pixels) x '
             'zero-weight patterns (none, edges, runs of 1-40, isolated good pixels, alternating, dense random, all bad) x output '
             'grids (same, sub-pixel shifted, wider by 1-100 px, narrower, disjoint, coarser x2-x4, finer) x all five aesthetics '
             'methods, with objivar and without, float32 and float64; plus smooth noise-free reproduction / constant / scaling '
@@ -82,7 +82,7 @@ class C11(Check):
     # ------------------------------------------------------------------ gen
     def _mask(self, rng, g, n, pat=None):
         iv = g.uniform(1, 5, n)
-        pat = pat if pat is not None else rng.choice(['none', 'edges', 'runs', 'random', 'alternating', 'isolated', 'runs'])
+        pat = pat if pat is not None else rng.choice(['none', 'edges', 'runs', 'random', 'alternating', 'isolated', 'runs', 'single_pixels'])
         if pat == 'edges':
             iv[:rng.randint(1, 20)] = 0
             iv[-rng.randint(1, 20):] = 0
@@ -94,6 +94,9 @@ class C11(Check):
             iv[g.uniform(size=n) < rng.uniform(0.02, 0.5)] = 0
         elif pat == 'alternating':
             iv[rng.randint(0, 1)::2] = 0
+        elif pat == 'single_pixels':
+            for _ in range(rng.randint(1, 6)):
+                iv[rng.randint(3, n - 4)] = 0            # isolated single zero-weight pixels
         elif pat == 'isolated':
             a = rng.randint(20, n - 20)
             iv[a - 6:a] = 0
@@ -143,19 +146,26 @@ class C11(Check):
         if cls == 'stack2d':
             nspec = rng.randint(2, 4)
             n = rng.randint(220, 500)
-            offs = [0.0] + [rng.uniform(0, 1) for _ in range(nspec - 1)]
+            # sub-pixel dithers, and (half of the cases) exposures with different wavelength coverage (offset by 20-150 px)
+            offs = [0.0] + [rng.uniform(0, 1) + (rng.randint(20, 150) * rng.choice([-1, 1]) if rng.random() < 0.5 else 0)
+                            for _ in range(nspec - 1)]
             ll = np.array([l0 + dl * (np.arange(n) + o) for o in offs])
             fl = 10 + np.sin((ll - l0) / dl / rng.uniform(15, 40)) * rng.uniform(0, 3) + g.normal(0, 0.05, ll.shape)
             iv = np.zeros_like(ll)
             pats = []
             for s in range(nspec):
                 while True:
-                    ivs, pat = self._mask(rng, g, n, rng.choice(['none', 'edges', 'runs', 'isolated', 'random']))
+                    ivs, pat = self._mask(rng, g, n, rng.choice(['none', 'edges', 'runs', 'isolated', 'random', 'single_pixels']))
                     if (ivs > 0).sum() >= 101:
                         break
                 iv[s] = ivs
                 pats.append(pat)
             nl, gk = self._grid(rng, ll[0], dl)
+            if rng.random() < 0.5:
+                # output grid spanning the union of all exposures (parts of it are covered by one exposure only)
+                lo, hi = float(ll.min()), float(ll.max())
+                nl = lo - 5 * dl + dl * np.arange(int(round((hi - lo) / dl)) + 11) + rng.choice([0.0, rng.uniform(0, 1)]) * dl
+                gk = 'union'
             return {'kind': cls, 'll': ll.tolist(), 'fl': fl.tolist(), 'iv': iv.tolist(), 'nl': nl.tolist(), 'method': meth,
                     'pattern': pats, 'grid': gk, 'dtype': 'f8'}
         if cls in ('reproduce', 'scaling'):
